@@ -6,6 +6,7 @@ from .core import rv, num, is_num, toreal, Unsupported, R
 expf = z3.Function("expf", R, R)
 logf = z3.Function("logf", R, R)
 sqrtf = z3.Function("sqrtf", R, R)
+IMPLICIT = {}       # id of a cut symbol th -> (th, G) with G(th, ...) == 0 its defining equation (implicit function theorem)
 SQRT_DEFS = {}      # id of a fresh sqrt constant -> (const, radicand)
 PI = z3.Real("PI")          # the constant pi, carried symbolically (3.14159 < PI < 3.14160 as axiom when needed)
 
@@ -149,6 +150,14 @@ def _diff(t, x, cache):
     if z3.eq(t, x): return rv(1)
     ch = t.children()
     if not ch:
+        im = IMPLICIT.get(t.get_id())
+        if im is not None and not z3.eq(t, x):
+            th, G = im
+            # d th/dx = -(dG/dx | th const) / (dG/dth)
+            gx = _diff_holding(G, x, th)
+            if is_num(gx) and num(gx) == 0: return rv(0)
+            gth = _diff_holding(G, th, None)
+            return neg(div(gx, gth))
         sd = SQRT_DEFS.get(t.get_id())
         if sd is not None:
             da = diff(sd[1], x, cache)
@@ -209,6 +218,20 @@ def _diff(t, x, cache):
                 tot = add(tot, mul(dc, pd(*ch)))
             return tot
     raise Unsupported("diff " + str(t.decl()))
+
+
+def _diff_holding(G, x, hold):
+    """partial derivative of G wrt x, treating `hold` (an implicit symbol) as independent of x"""
+    saved = None
+    if hold is not None:
+        saved = IMPLICIT.pop(hold.get_id(), None)
+    elif x.get_id() in IMPLICIT:
+        saved = IMPLICIT.pop(x.get_id()); hold = x
+    try:
+        return diff(G, x, {})
+    finally:
+        if saved is not None:
+            IMPLICIT[hold.get_id()] = saved
 
 
 def depends_on(t, x):
